@@ -93,7 +93,9 @@ def families(args):
                                    'status': 'reproduced', 'role': 'panic:%s' % item.label, 'native': 'verification condition on the production MIR'})
         return out
     fam3 = ppprop.Family('grammar-panic-sites', [GItem(n) for n in sorted(results)], None, ('panic',), custom_work=gwork)
-    return [fam1, fam2, fam3]
+    # the API wrappers (parse_X, parse_X_str, parse_X_pp over texts whose first / last bytes have no origin): panic obligations
+    fam4 = ppprop.Family('wrapper-panics', [c for c in c20.all_cases() if not c.label.startswith('file/')], None, ('panic',), custom_work=lambda c: c.fn())
+    return [fam1, fam2, fam3, fam4]
 
 
 def main():
